@@ -108,7 +108,10 @@ def pickletools_codes():
 UNSUPPORTED_CONTEXTS = [b"c__main__\nFoo\n)R}", b"c__main__\nFoo\n)R", b"c__main__\nFoo\n)R(", b"c__main__\nFoo\n", b"}", b"]", b"(", b"N",
                         b"NN", b"\x80\x02c__main__\nFoo\n)R}q\x00", b"(c__main__\nFoo\n)RN", b"I1\nc__main__\nFoo\n)RV\n", b"]q\x00(",
                         b"\x80\x04\x95\x00\x00\x00\x00\x00\x00\x00\x00\x8c\x01m\x8c\x01n\x93)R}", b"(c__main__\nFoo\n)R}",
-                        b"c__main__\nFoo\n(K\x01", b"c__main__\nFoo\n)R}(V\nN", b"c__main__\nFoo\nc__main__\nBar\n)R"]
+                        b"c__main__\nFoo\n(K\x01", b"c__main__\nFoo\n)R}(V\nN", b"c__main__\nFoo\nc__main__\nBar\n)R",
+                        # after PROTO of every version (an unsupported byte is an OpcodeError whatever protocol was announced)
+                        b"\x80\x00N", b"\x80\x01N", b"\x80\x02N", b"\x80\x03N", b"\x80\x04N", b"\x80\x05N", b"\x80\x05", b"\x80\x05]q\x00(",
+                        b"\x80\x05\x95\x00\x00\x00\x00\x00\x00\x00\x00N"]
 
 
 class C04:
@@ -1026,7 +1029,11 @@ def unhashable_atoms():
     return [b"]", b"}", b"\x96\x01\x00\x00\x00\x00\x00\x00\x00a", b"(K\x01l", b"(K\x01K\x02d", b"]K\x01a",
             b"\x96\x00\x00\x00\x00\x00\x00\x00\x00", b"(l", b"(d", b"c__builtin__\nbytearray\n)R",
             # a dict that contains itself (d['a'] = d), directly and through a tuple: whatever reports the bad key must not walk it forever
-            b"}q\x00U\x01ah\x00s", b"}q\x00U\x01ah\x00\x85s", b"}q\x09(U\x01ah\x09U\x01bh\x09u", b"]q\x00h\x00a"]
+            b"}q\x00U\x01ah\x00s", b"}q\x00U\x01ah\x00\x85s", b"}q\x09(U\x01ah\x09U\x01bh\x09u", b"]q\x00h\x00a",
+            # a bytearray as Python 2 (and Python 3 before 3.8) writes it - bytearray(text, 'latin-1'), the encoding name a Python-2 str -
+            # and as CPython 3 writes it below protocol 5
+            P.py2_bytearray_pickle(b"ab", 0)[:-1], P.py2_bytearray_pickle(b"ab", 1, True)[:-1], P.py2_bytearray_pickle(b"a\xe9", 2)[:-1],
+            b"c__builtin__\nbytearray\n(X\x02\x00\x00\x00abX\x07\x00\x00\x00latin-1tR", b"c__builtin__\nbytearray\n(c_codecs\nencode\n(X\x01\x00\x00\x00aX\x06\x00\x00\x00latin1tRtR"]
 
 
 def wrap_key(atom, depth, kind, rng):
@@ -1366,6 +1373,7 @@ class C18:
                     meta.append(("dec", hook))
         go, lean = run_both(lines)
         float_text_instances(ctx, [(int(ln.split(" ")[1]), ln) for ln in lines if ln.startswith("enc ")])
+        self.run_every_pointer(ctx)
         self.run_holders(ctx)
         self.run_nested_ids(ctx)
         rt_lines, rt_meta = [], []
@@ -1430,6 +1438,29 @@ class C18:
                                 cl[:3000], want[:1500], got[:1500])
         for i in range(0, len(lines), max(1, len(lines) // 8)):
             ctx.sample(lines[i][:300] + " -> " + go[i][:200])
+
+    def run_every_pointer(self, ctx):
+        """PersistentRef is consulted for EVERY pointer-to-struct, the library's own struct types included: a hook that maps *big.Int
+        objects (hook G) must see them wherever they occur; what is written is what the model writes for the value with those
+        objects replaced by the references (the model's hooks know application objects only)."""
+        rng = ctx.rng
+        glines, mlines = [], []
+        for _ in range(ctx.scale(150, 2500)):
+            ns = [rng.choice([0, 1, -1, 2 ** 63, -2 ** 64 - 1, rng.getrandbits(90), 255]) for _ in range(3)]
+            mk = rng.choice(["m", "d"])
+            v = ("l", [("L", ns[0]), ("X", rng.randint(0, 9)), ("t", [("L", ns[1]), ("I", 5)]), (mk, [(("S", b"k"), ("L", ns[2]))]), ("N",)])
+            sub = V.mapv(v, lambda x: ("R", ("S", b"big:" + str(x[1]).encode())) if x[0] == "L" else x)
+            p, su = rng.randint(0, 5), rng.randint(0, 1)
+            glines.append(f"enc {p} {su} G {V.render(v, sort=False)}")
+            mlines.append(f"enc {p} {su} S {V.render(sub, sort=False)}")
+        go = C.run_sharded(C.run_go, glines)
+        lean = C.run_sharded(C.run_lean, mlines)
+        for gl, g, l in zip(glines, go, lean):
+            ctx.evaluations += 1
+            ctx.count("every-pointer-to-struct:" + g.split(" ")[0])
+            if "".join(g.split(",")) != "".join(l.split(",")):
+                ctx.violate("PersistentRef maps *big.Int objects, yet they were not written as the references it returned (the hook must be "
+                            "consulted for every pointer-to-struct)", gl[:3000], l[:600], g[:600])
 
     def run_holders(self, ctx):
         """Mapped application objects reachable only through a pointer-typed field of another application struct
@@ -1666,6 +1697,18 @@ class C19:
                 for su in "01":
                     lines.append(f"conv {rng.choice('01')}{su} {hexs(b + b'.')}")
                     meta.append(("payload", name, (s, kind, su)))
+        # the same payload forms inside a protocol-4 FRAME that announces its true length - frames of 4090 .. 70000 bytes, longer than
+        # the reader's 4096-byte buffer: a frame is a hint, what it carries is delivered unchanged
+        import struct as _st
+        for n in (100, 4082, 4090, 4096, 5000, 65535, 70000):
+            s = bytes((i * 11 + 5) % 251 for i in range(n))
+            for name, b, kind in payload_forms(s):
+                if name in ("BINSTRING", "BINBYTES", "BINUNICODE", "BYTEARRAY8"):
+                    for su in "01":
+                        body = b + b"."
+                        framed = bytes([0x80, 4, 0x95]) + _st.pack("<Q", len(body)) + body
+                        lines.append(f"conv {rng.choice('01')}{su} {hexs(framed)}")
+                        meta.append(("payload", name + "-in-frame", (s, kind, su)))
         # an EMPTY payload in a 4/8-byte-length form right after a non-empty string load (one scratch buffer serves them all):
         # every form must still deliver the empty payload
         for first in (P.SHORT_BINSTRING(b"abc"), P.SHORT_BINBYTES(b"wxyz"), P.BINUNICODE(b"hello"), P.BINSTRING(b"q" * 300)):
